@@ -1,16 +1,30 @@
 (** C05 — combinators evaluate to what the equivalent eager Python computation yields.
-    [Model/Spec.v] defines that computation ([sem]: result only, plain error monad).  Here:
-    the interpreter transcribed from the labrea classes computes exactly [sem] (for EVERY
-    expression, dictionary, user code and resolution budget), then the sentences of the property
-    as statements about [sem].  Only [exact]-closed statements + [Print Assumptions]. *)
+
+    THREE layers, and what each is worth:
+    - [Eval.eval]: the interpreter transcribed clause by clause from the labrea classes (state,
+      event log, request wrappers).
+    - [Spec.sem] ([Model/Spec.v]): "eval with the effects erased" — the SAME clause-by-clause
+      recursion in the plain error monad, reusing the model's helpers ([pick], [product],
+      [option_set], [mix], …).  An INTERMEDIATE layer, not an independent specification:
+      [C05_eval_refines_spec] is a monad erasure, and the sentence theorems about switch / bind /
+      dataset stated with [assoc_v] below ([C05_switch_spec], [C05_switch_registered],
+      [C05_bind_is_application], [C05_dataset_spec], …) are unfoldings of its clauses.
+    - the independent, declarative specification ([Proofs/C05Spec.v]), last part of this file:
+      Map by a comprehension over the standard library's [list_prod] (also: membership and the
+      mixed-radix position of every combination), the dictionary of an assignment by what
+      [lookup] answers in it ([overlays]), the lazy sequence as a [firstn]; Coalesce, switch, bind,
+      case-when by [List.find] over outcomes / tables.  [sem] — hence [eval], through the
+      refinement theorem — is proved equal to it on well-formed inputs.
+    Only [exact]-closed statements + [Print Assumptions]. *)
 From Coq Require Import List NArith ZArith Bool.
 Import ListNotations.
 From LV Require Import Model.Base Model.Template Model.Eval Model.Derived Model.EvalRun Model.Spec
-  Proofs.BaseProofs Proofs.EvalProofs Proofs.SpecProofs.
+  Proofs.BaseProofs Proofs.EvalProofs Proofs.SpecProofs Proofs.C08Overlay Proofs.C05Spec.
 
-(** The result of the cache-free reference run of the code-structured interpreter — request
-    wrappers, [_DependsOn], the macro expansion of Map, try/except of coalesce and switch, the
-    event log — is the reference value, for all expressions (no fragment restriction). *)
+(** ** Layer 1 -> layer 2: erasing the effects.  The result of the cache-free reference run of
+    the code-structured interpreter — request wrappers, [_DependsOn], the macro expansion of Map,
+    try/except of coalesce and switch, the event log — is [sem], for all expressions (no fragment
+    restriction). *)
 Theorem C05_eval_refines_spec : forall u fuel e o,
   fst (fst (eval unit nc_find nc_store cfg_nc u fuel (fun _ _ => true) e o tt)) = sem u fuel e o.
 Proof. exact C05_refinement. Qed.
@@ -28,7 +42,11 @@ Theorem C05_observed_refines_spec : forall u fuel e o,
 Proof. exact C05_refinement_observed. Qed.
 Print Assumptions C05_observed_refines_spec.
 
-(** switch takes the branch registered under the dispatch value and otherwise (or when the
+(** ** Sentences about [sem] (layer 2).  Those about switch / bind / dataset in this part are
+    the clauses of [sem] restated (model clauses); the real content here is case-when / coalesce
+    over arbitrary prefixes, collection order, and the Map count / override theorems.
+
+    switch takes the branch registered under the dispatch value and otherwise (or when the
     dispatch cannot be evaluated) the default; with neither, it fails. *)
 Theorem C05_switch_spec : forall u fuel disp tbl dflt o,
   sem u fuel (ESwitch disp tbl dflt) o =
@@ -225,6 +243,208 @@ Theorem C05_dataset_spec : forall u fuel d o,
 Proof. exact dataset_spec. Qed.
 Print Assumptions C05_dataset_spec.
 
+(** ** Layer 3: the independent specification ([Proofs/C05Spec.v]) and [sem] / [eval] equal to it.
+
+    *** The cartesian product.  [cart] is a comprehension over the standard library's [list_prod],
+    written without reference to the model's [Eval.product]; the model's product is it … *)
+Theorem C05_product_is_list_prod_comprehension : forall (A : Type) (ls : list (list A)),
+  product ls = cart ls.
+Proof. exact @product_is_cart. Qed.
+Print Assumptions C05_product_is_list_prod_comprehension.
+
+(** … its members are exactly the lists picking one element of each factor, in order … *)
+Theorem C05_cart_membership : forall (A : Type) (ls : list (list A)) combo,
+  In combo (cart ls) <-> Forall2 (fun x l => In x l) combo ls.
+Proof. exact @in_cart. Qed.
+Print Assumptions C05_cart_membership.
+
+(** … and the i-th one is the mixed-radix representation of i with the LAST factor as least
+    significant digit: lexicographic order, last key varying fastest. *)
+Theorem C05_cart_order_last_fastest : forall (A : Type) (d : A) (ls : list (list A)) i,
+  (i < radix ls)%nat -> nth i (cart ls) [] = digits d ls i.
+Proof. exact @nth_cart. Qed.
+Print Assumptions C05_cart_order_last_fastest.
+
+(** *** The dictionary an assignment denotes, by what [lookup] answers in it ([overlays o row d]:
+    every assigned key holds the assigned value; every key that is neither a prefix nor an
+    extension of an assigned key is answered as the caller's [o] answers it).  For keys that are
+    non-empty paths of names, none a prefix of another, and non-dictionary JSON values, the
+    model's nested-set of ALL assignments of the combination succeeds and the caller's options
+    overlaid by it satisfy that characterisation. *)
+Theorem C05_map_assignment_dictionary : forall o row,
+  forallb name_key (map fst row) = true -> pairwise_diverge (map fst row) = true ->
+  forallb scalar_value (map snd row) = true ->
+  exists os, srow_options row = Ok os /\ overlays o row (mix o os).
+Proof. exact row_overlay_spec. Qed.
+Print Assumptions C05_map_assignment_dictionary.
+
+(** *** Map.  With iterables evaluating to the collections [xss] and, for each assignment, the
+    dictionary [osf row] it denotes: the elements (assignment, value of the body under the
+    caller's options overlaid by that dictionary) in the order of [cart], up to and including the
+    first that fails ([upto_first_bad] is a [firstn]); a failing element is the deferred failure
+    [VErr c], raised when that element is consumed. *)
+Theorem C05_map_spec : forall u fuel e its o xss (osf : list (key * value) -> dict),
+  Forall2 (iterates u fuel o) its xss ->
+  (forall row, In row (assignments (map fst its) xss) -> srow_options row = Ok (osf row)) ->
+  (forall row, In row (assignments (map fst its) xss) -> modelled (sem u fuel e (mix o (osf row))) = true) ->
+  sem u fuel (EMap e its) o =
+    Ok (VT T_ITER (map map_elem
+                    (upto_first_bad outcome_ok
+                       (map (fun row => (row, sem u fuel e (mix o (osf row))))
+                            (assignments (map fst its) xss))))).
+Proof. exact map_value_spec. Qed.
+Print Assumptions C05_map_spec.
+
+(** … on well-formed inputs, with the dictionaries characterised by [overlays] alone … *)
+Theorem C05_map_spec_wellformed : forall u fuel e its o xss,
+  Forall2 (iterates u fuel o) its xss ->
+  forallb name_key (map fst its) = true -> pairwise_diverge (map fst its) = true ->
+  Forall (fun xs => forallb scalar_value xs = true) xss ->
+  (forall row, In row (assignments (map fst its) xss) ->
+     map fst row = map fst its /\ overlays o row (assignment_dict o row)) /\
+  ((forall row, In row (assignments (map fst its) xss) ->
+      modelled (sem u fuel e (assignment_dict o row)) = true) ->
+   sem u fuel (EMap e its) o =
+     Ok (VT T_ITER (map map_elem
+                     (upto_first_bad outcome_ok
+                        (map (fun row => (row, sem u fuel e (assignment_dict o row)))
+                             (assignments (map fst its) xss)))))).
+Proof. exact map_spec_wf. Qed.
+Print Assumptions C05_map_spec_wellformed.
+
+(** … and the same of the code-structured interpreter. *)
+Theorem C05_eval_map_spec_wellformed : forall u fuel e its o xss,
+  let evalR e o := fst (fst (eval unit nc_find nc_store cfg_nc u fuel (fun _ _ => true) e o tt)) in
+  Forall2 (iterates_eval u fuel o) its xss ->
+  forallb name_key (map fst its) = true -> pairwise_diverge (map fst its) = true ->
+  Forall (fun xs => forallb scalar_value xs = true) xss ->
+  (forall row, In row (assignments (map fst its) xss) ->
+     map fst row = map fst its /\ overlays o row (assignment_dict o row)) /\
+  ((forall row, In row (assignments (map fst its) xss) ->
+      modelled (evalR e (assignment_dict o row)) = true) ->
+   evalR (EMap e its) o =
+     Ok (VT T_ITER (map map_elem
+                     (upto_first_bad outcome_ok
+                        (map (fun row => (row, evalR e (assignment_dict o row)))
+                             (assignments (map fst its) xss)))))).
+Proof. exact eval_map_spec_wf. Qed.
+Print Assumptions C05_eval_map_spec_wellformed.
+
+(** the i-th assignment pairs the keys with the mixed-radix digits of i *)
+Theorem C05_map_assignments_in_product_order : forall (ks : list key) xss i,
+  (i < radix xss)%nat -> nth i (assignments ks xss) [] = combine ks (digits VMissing xss i).
+Proof. exact nth_assignments. Qed.
+Print Assumptions C05_map_assignments_in_product_order.
+
+(** an iterable that cannot be evaluated or consumed: the Map fails with that failure at once *)
+Theorem C05_map_iterable_fails : forall u fuel e pre k it post o xss c ee,
+  Forall2 (iterates u fuel o) pre xss ->
+  (sem u fuel it o = Err c ee \/ exists v, sem u fuel it o = Ok v /\ sforce v = Err c ee) ->
+  sem u fuel (EMap e (pre ++ (k, it) :: post)) o = Err c true.
+Proof. exact map_iterable_fails. Qed.
+Print Assumptions C05_map_iterable_fails.
+
+(** laziness: a body failing at one assignment does not fail the Map; the failure is deferred to
+    that element (and ends the sequence there) *)
+Theorem C05_map_failure_surfaces_at_element : forall u fuel e its o xss pre row post c ee,
+  Forall2 (iterates u fuel o) its xss ->
+  forallb name_key (map fst its) = true -> pairwise_diverge (map fst its) = true ->
+  Forall (fun xs => forallb scalar_value xs = true) xss ->
+  assignments (map fst its) xss = pre ++ row :: post ->
+  forallb (fun r => outcome_ok (r, sem u fuel e (assignment_dict o r))) pre = true ->
+  sem u fuel e (assignment_dict o row) = Err c ee -> c <> CUnmodelled ->
+  (forall r, In r post -> modelled (sem u fuel e (assignment_dict o r)) = true) ->
+  sem u fuel (EMap e its) o =
+    Ok (VT T_ITER (map (fun r => map_elem (r, sem u fuel e (assignment_dict o r))) pre ++ [VErr c])).
+Proof. exact map_failure_surfaces_at_element. Qed.
+Print Assumptions C05_map_failure_surfaces_at_element.
+
+(** *** Coalesce: [List.find] over the members' outcomes ([attempt]: validate, then evaluate).
+    The first member that is not passed over decides — a member is passed over iff trying it
+    fails with an EvaluationError, so the deciding member is the first that validates and
+    evaluates OR the first failing with anything else (finding D23); if all are passed over, the
+    failure of the last one. *)
+Theorem C05_coalesce_find_spec : forall u fuel ms o,
+  sem u fuel (ECoalesce ms) o =
+    as_ee (match find (fun r => negb (passed r)) (map (attempt u fuel o) ms) with
+           | Some r => r
+           | None => last (map (attempt u fuel o) ms) (Err CUnmodelled false)
+           end).
+Proof. exact coalesce_find_spec. Qed.
+Print Assumptions C05_coalesce_find_spec.
+
+Theorem C05_coalesce_valid_find_spec : forall u fuel ms o,
+  sem_valid u fuel (ECoalesce ms) o =
+    match find (fun r => negb (passed r)) (map (fun m => sem_valid u fuel m o) ms) with
+    | Some r => r
+    | None => last (map (fun m => sem_valid u fuel m o) ms) (Err CUnmodelled false)
+    end.
+Proof. exact coalesce_valid_find_spec. Qed.
+Print Assumptions C05_coalesce_valid_find_spec.
+
+Theorem C05_eval_coalesce_find_spec : forall u fuel ms o,
+  let evalR e := fst (fst (eval unit nc_find nc_store cfg_nc u fuel (fun _ _ => true) e o tt)) in
+  let validR e := fst (fst (validate unit nc_find nc_store cfg_nc u fuel (fun _ _ => true) e o tt)) in
+  evalR (ECoalesce ms) =
+    as_ee (match find (fun r => negb (passed r)) (map (fun m => rbind (validR m) (fun _ => evalR m)) ms) with
+           | Some r => r
+           | None => last (map (fun m => rbind (validR m) (fun _ => evalR m)) ms) (Err CUnmodelled false)
+           end).
+Proof. exact eval_coalesce_find_spec. Qed.
+Print Assumptions C05_eval_coalesce_find_spec.
+
+(** *** switch, bind, case-when: [List.find] in the table (by Python [==]) / the case list *)
+Theorem C05_switch_find_spec : forall u fuel disp tbl dflt o,
+  sem u fuel (ESwitch disp tbl dflt) o =
+    match sem u fuel disp o with
+    | Ok k =>
+        if hashable k then
+          match option_map snd (find (fun ve => value_eq k (fst ve)) tbl) with
+          | Some b => sem u fuel b o
+          | None => match dflt with Some d => sem u fuel d o | None => Err CSwitch true end
+          end
+        else Err CType true
+    | Err c ee =>
+        match dflt with
+        | Some d => if is_unmodelled c then Err c true else sem u fuel d o
+        | None => Err c true
+        end
+    end.
+Proof. exact switch_find_spec. Qed.
+Print Assumptions C05_switch_find_spec.
+
+Theorem C05_bind_find_spec : forall u fuel src tbl dflt o,
+  sem u fuel (EBind src tbl dflt) o =
+    match sem u fuel src o with
+    | Ok x =>
+        match option_map snd (find (fun ve => value_eq x (fst ve)) tbl) with
+        | Some b => sem u fuel b o
+        | None => match dflt with Some d => sem u fuel d o | None => Err (CUser 0) true end
+        end
+    | Err c ee => Err c true
+    end.
+Proof. exact bind_find_spec. Qed.
+Print Assumptions C05_bind_find_spec.
+
+(** the first case whose condition is not plainly false decides ([case_test]: the condition
+    applied to the dispatch value): its result if the condition holds, the condition's failure if
+    it cannot be evaluated; with no such case, the default *)
+Theorem C05_case_find_spec : forall u fuel disp cases dflt o,
+  sem u fuel (ECase disp cases dflt) o =
+    match sem u fuel disp o with
+    | Ok x =>
+        match find (case_decides u fuel o x) cases with
+        | Some cr => match case_test u fuel o x cr with
+                     | Ok _ => sem u fuel (snd cr) o
+                     | Err c _ => Err c true
+                     end
+        | None => match dflt with Some d => sem u fuel d o | None => Err CCase true end
+        end
+    | Err c ee => Err c true
+    end.
+Proof. exact case_find_spec. Qed.
+Print Assumptions C05_case_find_spec.
+
 (** ** Non-vacuity (closed by computation). *)
 Definition kA : key := [SName 10]%N.
 Definition kB : key := [SName 11]%N.
@@ -244,6 +464,7 @@ Example C05_ex_switch :
   run (sw None) [(SName 10, JInt 3)]%N = Err CSwitch true /\
   run (sw None) [] = Err (CKey kA) true.
 Proof. vm_compute. repeat split. Qed.
+Print Assumptions C05_ex_switch.
 
 (** case(Option('A')).when(== 1, 'first').when(truthy, 'second'): both conditions hold of 1 —
     the first wins; only the second holds of 5; none of 0 (CaseWhenError). *)
@@ -254,6 +475,7 @@ Example C05_ex_case_first :
   sem u0 10 cw [(SName 10, JInt 5)]%N = Ok (VJ (jstr 115)) /\
   sem u0 10 cw [(SName 10, JInt 0)]%N = Err CCase true.
 Proof. vm_compute. repeat split. Qed.
+Print Assumptions C05_ex_case_first.
 
 (** Coalesce(switch(Option('A'), {1: Option('B')}), Option('B', 7)): the switch is passed over
     when A is missing or unregistered or B is missing. *)
@@ -265,6 +487,7 @@ Example C05_ex_coalesce :
   sem u0 10 co [(SName 10, JInt 1)]%N = Ok (VJ (JInt 7)) /\
   sem u0 10 (ECoalesce [EOption kA None None; EOption kB None None]) [] = Err (CKey kB) true.
 Proof. vm_compute. repeat split. Qed.
+Print Assumptions C05_ex_coalesce.
 
 (** Map(f(Option('A'), Option('B')), {'A': [1, 2], 'B': Option('L')}) on {'L': [3, 4], 'A': 9}:
     four pairs, product order, the assignment overriding the caller's A. *)
@@ -277,6 +500,7 @@ Example C05_ex_map :
   sem u0 10 m [(SName 30, JList [JInt 3; JInt 4]); (SName 10, JInt 9)]%N =
     Ok (VT T_ITER [pair 1 3; pair 1 4; pair 2 3; pair 2 4])%Z.
 Proof. vm_compute. reflexivity. Qed.
+Print Assumptions C05_ex_map.
 
 (** the hypotheses of [C05_map_cartesian_in_order] and [C05_collections_keep_order] are
     satisfiable: instances *)
@@ -290,12 +514,14 @@ Proof.
   cbn. eapply mp_cons; [vm_compute; reflexivity|vm_compute; reflexivity|reflexivity|].
   eapply mp_cons; [vm_compute; reflexivity|vm_compute; reflexivity|reflexivity|]. apply mp_nil.
 Qed.
+Print Assumptions C05_ex_map_hyps.
 
 Example C05_ex_collections :
   sem u0 10 (elist [EOption kB None None; cst (JInt 0); EOption kA None None])
       [(SName 10, JInt 1); (SName 11, JInt 2)]%N
   = Ok (VT T_LIST [VJ (JInt 2); VJ (JInt 0); VJ (JInt 1)]).
 Proof. vm_compute. reflexivity. Qed.
+Print Assumptions C05_ex_collections.
 
 (** the code-structured interpreter and the reference agree on a composite tree (an instance of
     the refinement theorem, by computation): a switch inside a Map inside a dataset default *)
@@ -310,6 +536,7 @@ Example C05_ex_composite :
   fst (eval_nc u0 10 e []) = consumed (sem u0 10 e []) /\
   exists v, sem u0 10 e [] = Ok v.
 Proof. vm_compute. split; [reflexivity|eexists; reflexivity]. Qed.
+Print Assumptions C05_ex_composite.
 
 (** the side conditions of the case-when and coalesce theorems are satisfiable, and the D23 shape
     is exactly what the boolean side condition excludes *)
@@ -319,6 +546,7 @@ Example C05_ex_side_conditions :
   passed_overb u0 10 [] (EBind (cst (JInt 2)) [] None) = false /\
   (exists p b, sem u0 10 (EValue (VF 101 [] [])) [] = Ok p /\ scall_value u0 p (VJ (JInt 5)) = Ok b /\ truthy b = false).
 Proof. vm_compute. repeat split. eexists; eexists; repeat split. Qed.
+Print Assumptions C05_ex_side_conditions.
 
 (** bind, apply and a two-key Map assignment overriding a section the caller partly supplies *)
 Example C05_ex_bind_apply_override :
@@ -333,3 +561,118 @@ Example C05_ex_bind_apply_override :
                                           VT T_PAIR [VJ (JStr [TRef kA]); VJ (JInt 2)]];
                                VT T_LIST [VJ (JInt 1); VJ (JInt 9); VJ (JInt 2)]]]).
 Proof. vm_compute. repeat split. Qed.
+Print Assumptions C05_ex_bind_apply_override.
+
+(** ** Non-vacuity of the independent specification. *)
+
+(** the comprehension, its order, and the mixed-radix reading of a position: 3 x 2 x 2 = 12
+    combinations; the 7th (counting from 0) is digits (1, 1, 1) of 7 = 1*4 + 1*2 + 1 *)
+Example C05_ex_cart :
+  cart [[1; 2; 3]; [4; 5]; [6; 7]]%nat =
+    [[1;4;6]; [1;4;7]; [1;5;6]; [1;5;7]; [2;4;6]; [2;4;7]; [2;5;6]; [2;5;7];
+     [3;4;6]; [3;4;7]; [3;5;6]; [3;5;7]]%nat /\
+  radix [[1; 2; 3]; [4; 5]; [6; 7]]%nat = 12%nat /\
+  digits 0%nat [[1; 2; 3]; [4; 5]; [6; 7]]%nat 7 = [2; 5; 7]%nat /\
+  nth 7 (cart [[1; 2; 3]; [4; 5]; [6; 7]]%nat) [] = [2; 5; 7]%nat.
+Proof. vm_compute. repeat split. Qed.
+Print Assumptions C05_ex_cart.
+
+(** Map(f(Option('A'), Option('S.X'), Option('S.Y')), {'A': [1, 2], 'S.X': Option('L')}) on
+    {'L': [3, 4], 'A': 9, 'S': {'X': 0, 'Y': 7}}: the hypotheses of [C05_map_spec_wellformed]
+    hold, its right-hand side is the four pairs in product order, and the dictionary of the
+    second assignment answers A and S.X with the assigned values and S.Y, L as the caller does *)
+Definition kSX : key := [SName 20; SName 21]%N.
+Definition kSY : key := [SName 20; SName 22]%N.
+Definition ex_its : list (key * expr) :=
+  [(kA, cst (JList [JInt 1; JInt 2])); (kSX, EOption [SName 30]%N None None)].
+Definition ex_o : dict :=
+  [(SName 30, JList [JInt 3; JInt 4]); (SName 10, JInt 9);
+   (SName 20, JObj [(SName 21, JInt 0); (SName 22, JInt 7)])]%N.
+Definition ex_body : expr := body 200 [EOption kA None None; EOption kSX None None; EOption kSY None None].
+Definition ex_xss : list (list value) := [[VJ (JInt 1); VJ (JInt 2)]; [VJ (JInt 3); VJ (JInt 4)]].
+
+Example C05_ex_map_spec_wellformed :
+  let rows := assignments (map fst ex_its) ex_xss in
+  let pair a b := VT T_TUPLE [VT T_DICT [VT T_PAIR [VJ (JStr [TRef kA]); VJ (JInt a)];
+                                         VT T_PAIR [VJ (JStr [TRef kSX]); VJ (JInt b)]];
+                              VT 200 [VJ (JInt a); VJ (JInt b); VJ (JInt 7)]] in
+  Forall2 (iterates u0 10 ex_o) ex_its ex_xss /\
+  forallb name_key (map fst ex_its) = true /\ pairwise_diverge (map fst ex_its) = true /\
+  forallb (fun xs => forallb scalar_value xs) ex_xss = true /\
+  forallb (fun row => modelled (sem u0 10 ex_body (assignment_dict ex_o row))) rows = true /\
+  map map_elem (upto_first_bad outcome_ok
+                  (map (fun row => (row, sem u0 10 ex_body (assignment_dict ex_o row))) rows))
+    = [pair 1 3; pair 1 4; pair 2 3; pair 2 4]%Z /\
+  sem u0 10 (EMap ex_body ex_its) ex_o = Ok (VT T_ITER [pair 1 3; pair 1 4; pair 2 3; pair 2 4]%Z) /\
+  (let d := assignment_dict ex_o (nth 1 rows []) in
+   lookup kA (JObj d) = Found (JInt 1) /\ lookup kSX (JObj d) = Found (JInt 4) /\
+   lookup kSY (JObj d) = Found (JInt 7) /\ lookup [SName 30]%N (JObj d) = lookup [SName 30]%N (JObj ex_o)).
+Proof.
+  split.
+  { constructor; [exists (VJ (JList [JInt 1; JInt 2])); split; vm_compute; reflexivity|].
+    constructor; [exists (VJ (JList [JInt 3; JInt 4])); split; vm_compute; reflexivity|]. constructor. }
+  vm_compute. repeat split.
+Qed.
+Print Assumptions C05_ex_map_spec_wellformed.
+
+(** laziness: Map(switch(Option('A'), {1: 'x'}), {'A': [1, 2, 1]}) — the body fails at the second
+    assignment (SwitchError): the Map evaluates to the first pair followed by the deferred
+    failure, the third assignment is never evaluated, and consuming the result raises there *)
+Example C05_ex_map_lazy_failure :
+  let e := ESwitch (EOption kA None None) [(VJ (JInt 1), cst (jstr 120))] None in
+  let its := [(kA, cst (JList [JInt 1; JInt 2; JInt 1]))] in
+  let xss := [[VJ (JInt 1); VJ (JInt 2); VJ (JInt 1)]] in
+  let rows := assignments (map fst its) xss in
+  rows = [[(kA, VJ (JInt 1))]] ++ [(kA, VJ (JInt 2))] :: [[(kA, VJ (JInt 1))]] /\
+  forallb (fun r => outcome_ok (r, sem u0 10 e (assignment_dict [] r))) [[(kA, VJ (JInt 1))]] = true /\
+  sem u0 10 e (assignment_dict [] [(kA, VJ (JInt 2))]) = Err CSwitch true /\
+  sem u0 10 (EMap e its) [] =
+    Ok (VT T_ITER [VT T_TUPLE [VT T_DICT [VT T_PAIR [VJ (JStr [TRef kA]); VJ (JInt 1)]]; VJ (jstr 120)];
+                   VErr CSwitch]) /\
+  consumed (sem u0 10 (EMap e its) []) = Err CSwitch true.
+Proof. vm_compute. repeat split. Qed.
+Print Assumptions C05_ex_map_lazy_failure.
+
+(** coalesce as a find over outcomes.  Coalesce(Option('A'), Option('B').bind(raising), 5) on
+    {'B': 2}: the first member is passed over (EvaluationError: missing key), the second is NOT
+    (its bind function raises: not an EvaluationError) and decides — the D23 shape; without it the
+    constant is found; with only missing Options the last failure is returned *)
+Example C05_ex_coalesce_find :
+  let o := [(SName 11, JInt 2)]%N in
+  let m1 := EOption kA None None in
+  let m2 := EBind (EOption kB None None) [] None in
+  let m3 := cst (JInt 5) in
+  map (attempt u0 10 o) [m1; m2; m3] = [Err (CKey kA) true; Err (CUser 0) false; Ok (VJ (JInt 5))] /\
+  map (fun r => negb (passed r)) (map (attempt u0 10 o) [m1; m2; m3]) = [false; true; true] /\
+  sem u0 10 (ECoalesce [m1; m2; m3]) o = Err (CUser 0) true /\
+  sem u0 10 (ECoalesce [m1; m3]) o = Ok (VJ (JInt 5)) /\
+  sem u0 10 (ECoalesce [m1; EOption [SName 12]%N None None]) o = Err (CKey [SName 12]%N) true.
+Proof. vm_compute. repeat split. Qed.
+Print Assumptions C05_ex_coalesce_find.
+
+(** case-when as a find: conditions (== 1), (truthy) on the dispatch value 5 — the first is
+    plainly false, the second decides; a condition that is not callable decides by failing *)
+Example C05_ex_case_find :
+  let o := [(SName 10, JInt 5)]%N in
+  let cases := [(EValue (VF 101 [] []), cst (jstr 102)); (EValue (VF 102 [] []), cst (jstr 115))] in
+  map (case_decides u0 10 o (VJ (JInt 5))) cases = [false; true] /\
+  sem u0 10 (ECase (EOption kA None None) cases None) o = Ok (VJ (jstr 115)) /\
+  case_test u0 10 o (VJ (JInt 5)) (cst (JInt 3), cst JNull) = Err CType false /\
+  sem u0 10 (ECase (EOption kA None None) ((cst (JInt 3), cst JNull) :: cases) None) o = Err CType true.
+Proof. vm_compute. repeat split. Qed.
+Print Assumptions C05_ex_case_find.
+
+(** an iterable that cannot be evaluated (Option('L') missing) or is not a collection (L = 5):
+    the Map fails at once with that failure, whatever the earlier iterables and the body *)
+Example C05_ex_map_iterable_fails :
+  let its := [(kA, cst (JList [JInt 1])); (kB, EOption [SName 30]%N None None)] in
+  Forall2 (iterates u0 10 []) [(kA, cst (JList [JInt 1]))] [[VJ (JInt 1)]] /\
+  sem u0 10 (EOption [SName 30]%N None None) [] = Err (CKey [SName 30]%N) true /\
+  sem u0 10 (EMap (cst JNull) its) [] = Err (CKey [SName 30]%N) true /\
+  sforce (VJ (JInt 5)) = Err CType false /\
+  sem u0 10 (EMap (cst JNull) its) [(SName 30, JInt 5)]%N = Err CType true.
+Proof.
+  split; [constructor; [exists (VJ (JList [JInt 1])); split; vm_compute; reflexivity|constructor]|].
+  vm_compute. repeat split.
+Qed.
+Print Assumptions C05_ex_map_iterable_fails.
